@@ -125,7 +125,52 @@ def re_draws(p):
     return dict(digest=_dig(leaves))
 
 
-RUN = dict(cl_draw_chain=cl_draw_chain, cl_kl=cl_kl, cl_okl=cl_okl, re_okl=re_okl, re_draws=re_draws)
+def re_history(p):
+    """a sequence of JAX optimize_kl runs on the SAME likelihood object in one process; returns the
+    digest of the last run. The result of a run must not depend on what ran before it (compiled
+    executables cached on static arguments, module-level state ...)."""
+    import jax
+    jax.config.update("jax_enable_x64", True)
+    import jax.numpy as jnp
+    import nifty.re as jft
+    N = 4
+    rng = np.random.default_rng(p.get("model_seed", 1))
+    resp = jnp.asarray(rng.standard_normal((2 * N, N)))
+    data = jnp.asarray(rng.standard_normal(2 * N))
+
+    def forward(q):
+        return resp @ (jnp.exp(0.5 * q["amp"]) * q["xi"])
+
+    dom = {"amp": jft.ShapeWithDtype((N,), jnp.float64), "xi": jft.ShapeWithDtype((N,), jnp.float64)}
+    model = jft.Model(forward, domain=jft.Vector(dom))
+    lh = jft.Gaussian(data, noise_std_inv=lambda x: 3.0 * x).amend(model)
+    pos = jft.Vector({"amp": jnp.asarray(rng.standard_normal(N) * 0.3),
+                      "xi": jnp.asarray(rng.standard_normal(N) * 0.3)})
+    last = None
+    for cfg in p["history"]:
+        pe = cfg.get("point_estimates")
+        if cfg.get("pe_form") == "bool_vector":
+            pe = jft.Vector({"amp": "amp" in pe, "xi": "xi" in pe})
+        else:
+            pe = tuple(pe)
+        samples, _ = jft.optimize_kl(
+            lh, pos, key=jax.random.PRNGKey(cfg.get("key", 3)), n_total_iterations=1,
+            n_samples=cfg.get("n_samples", 2), point_estimates=pe, constants=tuple(cfg.get("constants", ())),
+            jit=cfg.get("jit", True), sample_mode=cfg.get("sample_mode", "linear_resample"),
+            draw_linear_kwargs=dict(cg_name=None, cg_kwargs=dict(absdelta=1e-12, miniter=N, maxiter=N)),
+            nonlinearly_update_kwargs=dict(minimize_kwargs=dict(name=None, xtol=0.0, miniter=2, maxiter=2,
+                                                                cg_kwargs=dict(name=None, miniter=3, maxiter=3))),
+            kl_kwargs=dict(minimize_kwargs=dict(name=None, xtol=0.0, miniter=3, maxiter=3,
+                                                cg_kwargs=dict(name=None, miniter=3, maxiter=3))),
+            odir=None)
+        last = [np.asarray(samples.pos.tree[k]) for k in ("amp", "xi")]
+        if samples._samples is not None:
+            last += [np.asarray(samples._samples.tree[k]) for k in ("amp", "xi")]
+    return dict(digest=_dig(last), values=[x.tolist() for x in last])
+
+
+RUN = dict(cl_draw_chain=cl_draw_chain, cl_kl=cl_kl, cl_okl=cl_okl, re_okl=re_okl, re_draws=re_draws,
+           re_history=re_history)
 
 if __name__ == "__main__":
     name = sys.argv[1]
